@@ -23,6 +23,15 @@ import (
 
 func itoa(n int) string { return fmt.Sprint(n) }
 
+// rng0: deterministic choice in 0..n-1 that does not consume the run's PRNG (it is called from
+// parallel workers): which of the blocks a batch flushes gets the header-rewrite fault.
+func rng0(i, k, n int) int {
+	if n <= 1 {
+		return 0
+	}
+	return int((uint64(i)*2654435761 + uint64(k)*40503 + 12345) % uint64(n))
+}
+
 type flushInfo struct {
 	step  int
 	total int64 // 16 + payload size in the fault-free run
@@ -59,7 +68,7 @@ func main() {
 	a := common.ParseArgs()
 	lib.SilenceLogs()
 	run := common.NewRun(a, "C25", "HV.Storage.C25Fault")
-	run.Meta.Rule = "a case is one workload on one .hyd file with RLIMIT_FSIZE lowered around one or two calls so that the block write of the call stops after j bytes (j in {0, 1, 15, 16, 17, middle of the payload, one byte before the end}) and fails; observed: file operations, result of every call, Load of a copy of the file right after the faulted call and after the next call, Load of the final file; also: strace makes a chosen in-place header rewrite (pwrite64) or fsync fail with EIO, alone or before/after a short block write, or the truncation back after a short write (and its retries); non-trivial = at least one block write really stopped after j > 0 bytes (a partial block reached the file) or a header rewrite / fsync really failed; distinct = distinct (history with observed fault outcomes, observations)"
+	run.Meta.Rule = "a case is one workload (chronicler.Write calls with one treasure or a batch of 2-10 treasures spanning block boundaries, Syncs, Closes) on one .hyd file with RLIMIT_FSIZE lowered around one or two calls so that the block write of the call stops after j bytes (j in {0, 1, 15, 16, 17, middle of the payload, one byte before the end}) and fails; observed: file operations, result of every call, Load of a copy of the file right after the faulted call and after the next call, Load of the final file; also: strace makes a chosen in-place header rewrite (pwrite64) or fsync fail with EIO, alone or before/after a short block write, or the truncation back after a short write (and its retries); non-trivial = at least one block write really stopped after j > 0 bytes (a partial block reached the file) or a header rewrite / fsync really failed; distinct = distinct (history with observed fault outcomes, observations)"
 	rng := common.NewRng(a.Seed, "C25")
 	self, err := os.Executable()
 	if err != nil {
@@ -79,7 +88,7 @@ func main() {
 	}
 	scripts := make([]lib.Script, nScripts)
 	for i := range scripts {
-		scripts[i] = lib.GenScript(rng, i, minW, maxW, 60)
+		scripts[i] = lib.GenScriptB(rng, i, minW, maxW, 60, 30, 10)
 	}
 	// fault-free run of every script in this process: which calls flush a block, how long it is
 	flushes := make([][]flushInfo, nScripts)
@@ -92,8 +101,9 @@ func main() {
 		defer os.RemoveAll(dir)
 		s := scripts[i]
 		s.Steps = append([]lib.Step{}, s.Steps...)
-		sizes, res := lib.RunInProc(dir, &s)
+		sizes, blocks, res := lib.RunInProcBlocks(dir, &s)
 		prev := int64(lib.FH + s.NLen())
+		prevBlocks := 0
 		sysc[i] = make([]sysInfo, len(s.Steps))
 		npw, nfs := 0, 0
 		for k := range s.Steps {
@@ -102,9 +112,14 @@ func main() {
 			}
 			if g := sizes[k] - prev; g > lib.BH {
 				flushes[i] = append(flushes[i], flushInfo{k, g})
-				npw++
-				sysc[i][k].flushHdr = npw
+				nb := blocks[k] - prevBlocks // a batch can flush several blocks in one call
+				if nb < 1 {
+					nb = 1
+				}
+				sysc[i][k].flushHdr = npw + 1 + rng0(i, k, nb)
+				npw += nb
 			}
+			prevBlocks = blocks[k]
 			if s.Steps[k].K == lib.KSync || s.Steps[k].K == lib.KClose {
 				npw++
 				nfs++
